@@ -72,6 +72,9 @@ impl Controller for StaticResourceController {
                 }
 
                 is_directory_with_index_html = true;
+            } else if !md.is_file() {
+                // only regular files are served (opening a named pipe blocks until somebody writes to it)
+                return false
             }
         }
 
@@ -210,6 +213,11 @@ impl StaticResourceController {
 
         let md = boxed_md.unwrap();
         if md.is_dir() {
+            return false
+        }
+
+        // only regular files are served (opening a named pipe blocks until somebody writes to it)
+        if !md.is_file() {
             return false
         }
 
